@@ -1272,7 +1272,9 @@ def run_c08(cfg, ops, crash=None, do_real_kill=False):
         # cross-validation of the crash model against a real kill (harness self-check)
         if do_real_kill and nb > 0:
             krng = random.Random((cfg.get("seed") or 0) ^ 0x7E57)
-            bidx = krng.choice(sorted(boundary_no))
+            commits = [i for i in sorted(boundary_no) if points[i][0].endswith("commit")]
+            # the commit is where the file changes: look there half of the time
+            bidx = krng.choice(commits) if commits and krng.random() < 0.5 else krng.choice(sorted(boundary_no))
             obs = obs_by_idx.get(bidx)
             if obs is None:
                 write_image(snap, points[bidx][2])
